@@ -50,7 +50,6 @@ let run (path : string) =
          | _ -> ());
         if cls = "panic" then begin
           let kf = (match sw with
-              | Some (_, _, _, _, present) when Hooks.kf_C15_4 present -> "kf_C15_4"
               | Some (cap, counter, off, batch, _) when Sweep.kf_C15_2 cap counter off batch -> "kf_C15_2"
               | _ ->
                 (* the panic arose inside the per-item function of a unit the table lists as unwrapped *)
